@@ -33,7 +33,7 @@ pub fn group_states() -> Vec<GroupState> {
     v
 }
 
-pub const KINDS: [&str; 6] = ["str", "interp", "range", "plural", "empty", "fkempty"];
+pub const KINDS: [&str; 7] = ["str", "interp", "range", "plural", "empty", "fkempty", "fkto"];
 
 fn value_of_kind(kind: &str, tag: &str, is_default: bool) -> Vec<(String, Val)> {
     // returns the entries to add for key base name "K" (plural adds two)
@@ -41,6 +41,7 @@ fn value_of_kind(kind: &str, tag: &str, is_default: bool) -> Vec<(String, Val)> 
         // values that are defined but render as nothing: the empty string, and a string made only of a
         // reference to an empty string (the default locale keeps a visible text so that a wrong fallback shows)
         "empty" => vec![("K".into(), if is_default { st(&format!("[{tag}]")) } else { st("") })],
+        "fkto" => unreachable!(),
         "fkempty" => vec![("K".into(), if is_default { s(vec![text(&format!("[{tag}]")), fk("emp")]) } else { s(vec![fk("emp")]) })],
         "str" => vec![("K".into(), st(&format!("[{tag}]")))],
         "interp" => vec![("K".into(), s(vec![text(&format!("[{tag}]")), var("x"), comp("b", vec![var("y")])]))],
@@ -76,6 +77,14 @@ pub fn build_project(locales: &[&str], inherits: &[(String, String)]) -> (Projec
             n_keys += 1;
             for (li, loc) in locales.iter().enumerate() {
                 let pres = if li == 0 { Presence::Defined } else { PRES[pat[li - 1]] };
+                if kind == "fkto" {
+                    // a key reading `str<pi>` (same presence pattern) through a reference, written wherever the
+                    // target is written or null (a target absent from the file cannot be referenced)
+                    if pres != Presence::Absent {
+                        files[li].push((name.clone(), s(vec![text(&format!("[{loc}.{name}]")), fk(&format!("str{pi}"))])));
+                    }
+                    continue;
+                }
                 match pres {
                     Presence::Defined => {
                         for (k, v) in value_of_kind(kind, &format!("{loc}.{name}"), li == 0) {
@@ -168,8 +177,10 @@ pub enum Leaf {
     Empty,
     /// a float range whose first branch ends exclusively at 1.5
     FRange,
+    /// the variable the references address carries a formatter
+    Formatted,
 }
-pub const LEAVES: [Leaf; 9] = [Leaf::Text, Leaf::Interp, Leaf::Comp, Leaf::Range, Leaf::Plural, Leaf::Num, Leaf::CountVarOnly, Leaf::Empty, Leaf::FRange];
+pub const LEAVES: [Leaf; 10] = [Leaf::Text, Leaf::Interp, Leaf::Comp, Leaf::Range, Leaf::Plural, Leaf::Num, Leaf::CountVarOnly, Leaf::Empty, Leaf::FRange, Leaf::Formatted];
 
 #[derive(Clone, Copy, Debug, PartialEq, Eq)]
 pub enum Refk {
@@ -241,6 +252,7 @@ pub fn leaf_entries(name: &str, leaf: Leaf, tag: &str) -> Vec<(String, Val)> {
         ],
         Leaf::Num => vec![(name.into(), Val::UInt(7))],
         Leaf::Empty => vec![(name.into(), st(""))],
+        Leaf::Formatted => vec![(name.into(), s(vec![text(&format!("[{tag}]")), var_fmt("x", " number"), text("|"), var_fmt("count", " number(grouping_strategy: never)")]))],
         Leaf::FRange => vec![(
             name.into(),
             Val::Range(RangeDecl {
@@ -439,6 +451,25 @@ pub fn corpus(tier: Tier) -> Vec<Project> {
     let mut p = Project::new(Config::simple("en", &["en", "fr"]));
     p.set_file(None, "en", vec![("a".into(), st("A")), ("b".into(), st("B")), ("p_one".into(), st("1")), ("p_other".into(), st("n")), ("p_few".into(), st("few"))]);
     p.set_file(None, "fr", vec![("z".into(), st("surplus")), ("b".into(), Val::Null), ("y".into(), st("surplus2")), ("p_many".into(), st("m")), ("p_other".into(), st("n"))]);
+    out.push(p);
+    // many plural groups that each produce a diagnostic / each are invalid: a per-process iteration order shows
+    let mut e = vec![];
+    for i in 0..8 {
+        e.push((format!("q{i}_one"), st("1")));
+        e.push((format!("q{i}_few"), st("never selected in en")));
+        e.push((format!("q{i}_other"), st("n")));
+    }
+    let mut p = Project::new(Config::simple("en", &["en"]));
+    p.set_file(None, "en", e);
+    out.push(p);
+    let mut e = vec![];
+    for i in 0..8 {
+        e.push((format!("r{i}_one"), st("1")));
+        e.push((format!("r{i}_other"), st("n")));
+        e.push((format!("r{i}_ordinal_other"), st("nth")));
+    }
+    let mut p = Project::new(Config::simple("en", &["en"]));
+    p.set_file(None, "en", e);
     out.push(p);
     // error projects: the error must not depend on order either
     let mut p = Project::new(Config::simple("en", &["en"]));
